@@ -294,6 +294,7 @@ class Mid(Base):
 
     def mother(self):
         self.shared = make_mid
+        self.mattr = 'set on the instance'
         return self
 
 
@@ -318,6 +319,7 @@ w = make_mid().mmeth().bmeth()
 print(x.mattr, y.binst, m1.val.battr, z, w.binst, m1.item.minst)
 base = m1.second.Base()
 print(base.shared.upper, x.shared.battr, base.bmeth().shared, x.mother().shared, m1.val.shared.lower)
+print(M.mattr, m1.Mid.mattr, m1.Mid.mmeth, m1.second.Base.battr, M().mattr, x.mattr)
 '''
 MODS = {'m0': M0, 'm1': M1, 'm2': M2}
 
